@@ -101,6 +101,7 @@ var transTargets = []transTarget{
 	{"message/kakfamessagereceiver.go", "KafkaMessageReceiver", "buildPartitionAssignments", "loop0", "mrStartOffsetBody"},
 	{"message/kakfamessagereceiver.go", "KafkaMessageReceiver", "processEvent", "", "mrProcessEvent"},
 	{"message/kakfamessagereceiver.go", "KafkaMessageReceiver", "processInitBuffer", "loop0", "mrInitBufferBody"},
+	{"message/kakfamessagereceiver.go", "KafkaMessageReceiver", "deliverMessage", "", "mrDeliverMessage"},
 	// C11
 	{"executor/message.go", "Executor", "deliverMessageToNode", "", "exDeliverToNode"},
 	{"executor/message.go", "Executor", "deliverMessage", "", "exDeliverMessage"},
